@@ -131,6 +131,8 @@ structure Call where
   assign : List TP               -- assign[i] for the indexes balanced so far
   place : Nat → Option Nat       -- index → batch it was added to
   result : Option Result
+  beginSeq : Nat                 -- ghost: value of the submission counter when the call began
+  endSeq : Option Nat            -- ghost: value of the submission counter when the call returned
 
 structure LogEntry where
   msg : Msg
@@ -311,19 +313,19 @@ def stepReject (cfg : Cfg) (s : State) (c : Nat) (why : RejWhy) (i : Nat) : Opti
     | .toolarge =>
       if C.phase = .begun ∧ (C.msgs.take i).all (fun m => decide (m.size ≤ cfg.batchBytes)) ∧
          msgAt C.msgs i (fun m => decide (cfg.batchBytes < m.size)) = true then
-        some { s with calls := upd s.calls c (some { C with phase := .returned, result := some (.rejected .toolarge i) }),
+        some { s with calls := upd s.calls c (some { C with phase := .returned, result := some (.rejected .toolarge i), endSeq := some s.seq }),
                       inflight := s.inflight - 1 }
       else none
     | .topic =>
       if (C.phase = .begun ∨ C.phase = .assigning) ∧ C.assign.length = i ∧ allFit cfg C.msgs ∧
          msgAt C.msgs i (fun m => (chooseTopic cfg m).isNone) = true then
-        some { s with calls := upd s.calls c (some { C with phase := .returned, result := some (.rejected .topic i) }),
+        some { s with calls := upd s.calls c (some { C with phase := .returned, result := some (.rejected .topic i), endSeq := some s.seq }),
                       inflight := s.inflight - 1 }
       else none
     | .metadata =>
       if (C.phase = .begun ∨ C.phase = .assigning) ∧ C.assign.length = i ∧ allFit cfg C.msgs ∧
          msgAt C.msgs i (fun m => (chooseTopic cfg m).isSome) = true then
-        some { s with calls := upd s.calls c (some { C with phase := .returned, result := some (.rejected .metadata i) }),
+        some { s with calls := upd s.calls c (some { C with phase := .returned, result := some (.rejected .metadata i), endSeq := some s.seq }),
                       inflight := s.inflight - 1 }
       else none
     | .closed =>
@@ -412,7 +414,7 @@ def stepRet (cfg : Cfg) (s : State) (c : Nat) (r : Result) : Option State :=
   | none => none
   | some C =>
     let n := C.msgs.length
-    let fin : Option State := some { s with calls := upd s.calls c (some { C with phase := .returned, result := some r }),
+    let fin : Option State := some { s with calls := upd s.calls c (some { C with phase := .returned, result := some r, endSeq := some s.seq }),
                                             inflight := s.inflight - 1 }
     match r with
     | .closed => if C.phase = .rejectedClosed then fin else none
@@ -438,7 +440,7 @@ def step (cfg : Cfg) (s : State) (e : Event) : Option State :=
   | .begin_ c msgs =>
     if 0 < s.entered ∧ (s.calls c).isNone ∧ msgs ≠ [] then
       some { s with entered := s.entered - 1, callIds := s.callIds ++ [c],
-                    calls := upd s.calls c (some { msgs := msgs, phase := .begun, assign := [], place := fun _ => none, result := none }) }
+                    calls := upd s.calls c (some { msgs := msgs, phase := .begun, assign := [], place := fun _ => none, result := none, beginSeq := s.seq, endSeq := none }) }
     else none
   | .reject c why i => stepReject cfg s c why i
   | .assign c i tp =>
